@@ -4,7 +4,7 @@ which the model can be rebuilt exactly (replay)."""
 import numpy as np
 
 KP = [0.0, 1.0, 2.0, 3.0]
-KINDS = ["linear", "lattice", "lattice_kfl", "ens_explicit", "ens_explicit_kfl", "ens_random", "rtl", "rtl_kfl", "stack_lattice", "stack_linear"]
+KINDS = ["linear", "lattice", "lattice_kfl", "ens_explicit", "ens_explicit_kfl", "ens_random", "rtl", "rtl_kfl", "stack_lattice", "stack_linear", "stack_rtl"]
 FEATURE_TYPES = ["inc", "dec", "none", "cat", "catnone"]
 
 
@@ -13,7 +13,7 @@ def describe(rng, kind=None, allow_convexity=True, nf=None):
   kind = kind or str(rng.choice(KINDS))
   nf = nf or int(rng.randint(2, 5))
   ls = int(rng.choice([2, 2, 3]))
-  same_ls = kind in ("lattice_kfl", "ens_explicit_kfl", "rtl", "rtl_kfl")
+  same_ls = kind in ("lattice_kfl", "ens_explicit_kfl", "rtl", "rtl_kfl", "stack_rtl")
   feats = []
   for i in range(nf):
     t = str(rng.choice(FEATURE_TYPES, p=[.3, .2, .15, .25, .1]))
@@ -42,7 +42,7 @@ def describe(rng, kind=None, allow_convexity=True, nf=None):
       if f["keypoints_type"] == "learned_interior":
         f["convexity"] = 0
     feats.append(f)
-  if kind in ("stack_lattice", "stack_linear"):
+  if kind in ("stack_lattice", "stack_linear", "stack_rtl"):
     for f in feats:
       f["lattice_size"] = max(2, f["lattice_size"])
   b = str(rng.choice(["none", "both", "both", "min", "max"]))
@@ -129,7 +129,8 @@ def build(desc):
       tfl.premade_lib.set_random_lattice_ensemble(cfg)
     return tfl.premade.CalibratedLatticeEnsemble(cfg)
   # Sequential stack: ParallelCombination of calibrators -> Lattice / Linear
-  comb = tfl.layers.ParallelCombination()
+  # (stack_rtl: the documented two-layer RTL stack - calibrators -> RTL(separate_outputs=True) -> RTL, functional API)
+  comb = tfl.layers.ParallelCombination() if kind != "stack_rtl" else []
   sizes, monos = [], []
   for f in desc["features"]:
     s = f["lattice_size"]
@@ -148,6 +149,18 @@ def build(desc):
           impute_missing=f["default_value"] is not None, missing_input_value=f["default_value"],
           input_keypoints_type=f["keypoints_type"]))
       monos.append(1 if f["type"] in ("inc", "dec") else 0)
+  if kind == "stack_rtl":
+    inp = keras.layers.Input(shape=(len(sizes),))
+    groups = {"unconstrained": [], "increasing": []}
+    for i, (cal, m) in enumerate(zip(comb, monos)):
+      groups["increasing" if m else "unconstrained"].append(cal(inp[:, i:i + 1]))
+    groups = {k: v for k, v in groups.items() if v}
+    ls = sizes[0]
+    h = tfl.layers.RTL(num_lattices=desc["num_lattices"], lattice_rank=2, lattice_size=ls, output_min=0.0, output_max=ls - 1.0,
+                       separate_outputs=True, random_seed=desc["random_seed"], interpolation=desc["interpolation"])(groups)
+    out = tfl.layers.RTL(num_lattices=2, lattice_rank=2, lattice_size=ls, output_min=omin, output_max=omax, average_outputs=True,
+                         random_seed=desc["random_seed"] + 1, interpolation=desc["interpolation"])(h)
+    return keras.models.Model(inp, out)
   model = keras.models.Sequential()
   model.add(keras.layers.Input(shape=(len(sizes),)))
   model.add(comb)
